@@ -96,7 +96,7 @@ def guarded_use_rule(m, rid):
 # a matcher indexes its own text parameter only after an emptiness test (list engines hand empty entries on)
 # =================================================================================================
 INDEX_EXCEPTIONS = {
-    "Format_Item.match|my_string": "my_string is the stripped text itself, or its tail from the first character that skip_digits() found "
+    "Format_Item.match|stripped": "(the local bound to the stripped text parameter: `my_string` as the tree stands) it is the stripped text itself, or its tail from the first character that skip_digits() found "
                                    "to be neither digit nor blank (2003); the tail after '*' of stripped text longer than one character (2008)",
     "Char_Selector.match": "constructed only by WORDClsBase.match for the non-empty remainder after CHARACTER (C01.R9 table)",
     "Length_Selector.match": "alternative of Char_Selector only: receives the same non-empty text",
@@ -171,7 +171,21 @@ def param_index_rule(m, rid, exceptions=None):
             r.instances += 1
             T = n.value.id
             proven = any(nonempty_fact(t, pol, T) for t, pol in D.facts_at(f.node, n, P))
-            ek = q if q in exceptions else "%s|%s" % (q, T)
+            # an exception names the role of a local, not its spelling: "stripped" = bound to `<parameter>.strip()` in this function
+            role = T
+            stripped = set()
+            assigns_ = [x for x in A.body_nodes(f.node) if isinstance(x, ast.Assign) and len(x.targets) == 1 and isinstance(x.targets[0], ast.Name)]
+            for x in assigns_:
+                if isinstance(x.value, ast.Call) and isinstance(x.value.func, ast.Attribute) and x.value.func.attr == "strip" \
+                        and isinstance(x.value.func.value, ast.Name) and x.value.func.value.id in params:
+                    stripped.add(x.targets[0].id)
+            for _ in range(3):          # aliases and tails of it: `my = stripped`, `my = stripped[i:].lstrip()`
+                for x in assigns_:
+                    if A.names_in(x.value) & stripped and not (A.names_in(x.value) & params):
+                        stripped.add(x.targets[0].id)
+            if T in stripped:
+                role = "stripped"
+            ek = q if q in exceptions else "%s|%s" % (q, role)
             if not proven and ek in exceptions:
                 used.add(ek)
                 r.ob(True, "%s: `%s` -- %s" % (q, A.text(n), exceptions[ek]))
@@ -650,7 +664,7 @@ def alt_delimiter_rule(m, rid, module_filter=None):
                         rec = True
             r.ob(rec, "%s: delimiter pairs %s of `%s` recorded" % (q, sorted(ps), base))
             if not rec:
-                r.fail("%s|alt-delimiters|%s" % (q, base), "%s accepts `%s` enclosed in any of %s and keeps only the inside: the printer cannot "
+                r.fail("%s|alt-delimiters" % q, "%s accepts `%s` enclosed in any of %s and keeps only the inside: the printer cannot "
                        "reproduce the delimiters that were written" % (q, base, sorted(ps)), m.loc(f))
     return r
 
